@@ -1082,6 +1082,59 @@ func c09FaultCase(h *H, run *c09PruneRun, k int, rerun bool) {
 	h.End()
 }
 
+// c09ForgetPruneCases: `restic forget --prune <ids>` on the history's final state, once without
+// faults and once per selected snapshot with the removal of THAT snapshot file failing permanently
+// (all other operations work). Whatever snapshots are still listed afterwards must be restorable
+// with unchanged content.
+func c09ForgetPruneCases(h *H, run *c09PruneRun) {
+	if len(run.snaps) < 2 {
+		return
+	}
+	perm := h.Rng.Perm(len(run.snaps))
+	n := 2 + h.Intn(len(run.snaps)-1)
+	if n > 3 && !h.Thorough() {
+		n = 3
+	}
+	var sel []string
+	for _, i := range perm[:n] {
+		sel = append(sel, run.snaps[i])
+	}
+	sort.Strings(sel)
+	o := c09Opts{MaxRepack: ^uint64(0), MaxUnused: h.Pick([]string{"0", "5%", "unlimited"}), Version: 2}
+	args := append([]string{"forget", "--prune"}, o.cliArgs()[1:]...)
+	args = append(args, sel...)
+	for f := -1; f < len(sel); f++ {
+		be := LoadBackend(run.st0)
+		rec := NewRecBackend(be)
+		failed := false
+		if f >= 0 {
+			target := sel[f]
+			rec.FailOp = func(op string, hd backend.Handle, _ int) error {
+				if op == "remove" && hd.Type == backend.SnapshotFile && hd.Name == target {
+					failed = true
+					return errFault
+				}
+				return nil
+			}
+		}
+		r := NewCLI(&c09PermBackend{rec}).Run(args...)
+		NewCLI(be).Run("unlock", "--remove-all")
+		left := c09Snapshots(be)
+		h.Case("forgetprune")
+		h.Rec("labels", append([]string{"x"}, run.labels...)...)
+		o.rec(h, 0, 0)
+		h.Rec("cut", Itoa(f+1), Itoa(rec.Mutations()), B(r.Err != nil), B(failed))
+		if f >= 0 {
+			h.Rec("fault", "remove", "snapshot")
+		}
+		h.Rec("forget", Itoa(len(sel)), Itoa(len(run.snaps)), Itoa(len(left)))
+		h.Rec("pre", B(run.ck0))
+		ckOK, bad, det := c09Verify(be, left, run.want)
+		h.Rec("verify", B(ckOK), Itoa(bad), Itoa(len(left)), det)
+		h.End()
+	}
+}
+
 func c09OptionSets(h *H, n int) []c09Opts {
 	base := []c09Opts{
 		{MaxRepack: ^uint64(0), MaxUnused: "0", Version: 2},
@@ -1177,6 +1230,7 @@ func streamC09(h *H) {
 				c09FaultCase(h, run, k, h.Thorough() || k%3 == 0)
 			}
 		}
+		c09ForgetPruneCases(h, run)
 		x.Close()
 	}
 }
